@@ -9,6 +9,35 @@ Local Open Scope Z_scope.
 #[local] Hint Rewrite @zget_app_if @zget_map @zget_zfirstn @zget_zskipn' @zget_zrepeat @zget_single
   @zlen_app @zlen_map @zlen_zfirstn @zlen_zskipn @zlen_zrepeat @zlen_single : zg.
 
+Lemma t_md_set_active t g : t_md (set_active t g) = t_md t.
+Proof. unfold set_active; destruct (t_onalt t); reflexivity. Qed.
+Lemma t_cs_set_active t g : t_cs (set_active t g) = t_cs t.
+Proof. unfold set_active; destruct (t_onalt t); reflexivity. Qed.
+Lemma t_svp_set_active t g : t_svp (set_active t g) = t_svp t.
+Proof. unfold set_active; destruct (t_onalt t); reflexivity. Qed.
+Lemma t_sva_set_active t g : t_sva (set_active t g) = t_sva t.
+Proof. unfold set_active; destruct (t_onalt t); reflexivity. Qed.
+
+Lemma set_active_twice t g1 g2 : set_active (set_active t g1) g2 = set_active t g2.
+Proof. unfold set_active; destruct (t_onalt t) eqn:E; cbn; reflexivity. Qed.
+
+Lemma upd_nat_twice {A} (l : list A) n x y : upd_nat (upd_nat l n x) n y = upd_nat l n y.
+Proof. revert n; induction l as [|a l IH]; intros [|n]; simpl; auto. now rewrite IH. Qed.
+
+Lemma t_row_set_active t g : t_row (set_active t g) = t_row t.
+Proof. unfold set_active; destruct (t_onalt t); reflexivity. Qed.
+Lemma t_pen_set_active t g : t_pen (set_active t g) = t_pen t.
+Proof. unfold set_active; destruct (t_onalt t); reflexivity. Qed.
+
+Lemma zget_map_range_const {A} (x : A) lo hi (l : list A) i :
+  0 <= lo -> lo <= hi -> hi <= zlen l ->
+  zget (map_range (fun _ => x) lo hi l) i = if (lo <=? i) && (i <? hi) then Some x else zget l i.
+Proof.
+  intros H1 H2 H3. rewrite zget_map_range by assumption.
+  destruct ((lo <=? i) && (i <? hi)) eqn:E; [|reflexivity].
+  destruct (zget l i) eqn:G; [reflexivity|]. apply zget_none_range in G; lia.
+Qed.
+
 Section Grid3.
 Variables (w h : Z) (t : term).
 Hypothesis HI : Inv w h t.
@@ -35,32 +64,27 @@ Proof.
   f_equal. f_equal. destruct HI as [[] ? ?]. unfold dflt1, dflt. split_pv x Hx; repeat case_if; lia.
 Qed.
 
-(* erase in display, in the reference terminal's terms; [ed] does not need the wrap flag
-   to be clear for ps = 2 (used by the alternate screen switch) *)
-Lemma ed2_sim (t0 : term) : Inv w h t0 ->
-  exists t', ed t0 2 = TOk t' /\ Inv w h t' /\
-    abs t' = set_pos (set_grid (abs t0) (zrepeat (blank_line (abs t0)) h)) (t_row t0) (t_col t0) false.
+(* ED 2 needs only the well-formedness invariant (it is also what the alternate screen
+   switch runs, in a state where the mode flag and the active screen disagree) *)
+Lemma ed2_core (t0 : term) : WFs0 0 w h t0 ->
+  exists g', ed t0 2 = TOk (set_active (set_last t0 false) g') /\ grid_ok w h g' /\
+    abs_grid g' = zrepeat (zrepeat (Blank (pen_bg t0)) w) h.
 Proof.
-  intros HI0. pose proof (Inv_WF w h t0 HI0) as HW0.
+  intros HW0.
   destruct (WFs_active _ _ _ _ HW0) as [Hlen HF].
   unfold ed; cbv zeta.
   change (2 =? 0) with false; change (2 =? 1) with false; change (2 =? 2) with true; cbv iota.
   change (active (set_last t0 false)) with (active t0).
-  rewrite (Inv_width w h t0 HI0).
+  rewrite (WFs_width 0 w h t0 HW0).
   match goal with |- context[mapi_opt ?f 0 (active t0)] =>
     destruct (grid_loop_ok 0 w h t0 f HW0) as [g' [Hm Hg']] end.
   { intros r line Hrr Hl. destruct HW0. apply erase_cells_ok; auto; lia. }
   match goal with |- context[of_opt ?m] => replace m with (Some g') by (symmetry; exact Hm) end.
   cbn [of_opt tbind].
-  pose proof (Inv_set_last w h t0 false HI0) as HI1.
-  eexists; split; [reflexivity|]. split; [now apply Inv_set_active|].
-  rewrite (abs_set_active w h (set_last t0 false) g' HI1 Hg').
-  assert (Ea : abs (set_last t0 false) = set_pos (abs t0) (t_row t0) (t_col t0) false) by (apply abs_move; reflexivity).
-  rewrite Ea. unfold set_grid, set_pos; cbn. f_equal.
+  exists g'; split; [reflexivity|]. split; [assumption|].
   apply list_ext_all; intros i.
   pose proof (mapi_opt_zget _ _ _ _ Hm i) as Hz.
   unfold abs_grid at 1. rewrite zget_map. unfold trow, grid in *. rewrite Hz. clear Hz.
-  unfold blank_line, blanks. cbn. rewrite (Inv_width w h t0 HI0).
   autorewrite with zg.
   destruct (Z_lt_dec i 0); [rewrite !zget_neg by lia; pw_finish|].
   destruct (@zget (list tcell) (active t0) i) as [line|] eqn:G.
@@ -77,6 +101,18 @@ Proof.
   - apply zget_none_range in G. pw_finish.
 Qed.
 
+Lemma ed2_sim (t0 : term) : Inv w h t0 ->
+  exists t', ed t0 2 = TOk t' /\ Inv w h t' /\
+    abs t' = set_pos (set_grid (abs t0) (zrepeat (blank_line (abs t0)) h)) (t_row t0) (t_col t0) false.
+Proof.
+  intros HI0. pose proof (Inv_WF w h t0 HI0) as HW0.
+  destruct (ed2_core t0 HW0) as [g' [E [Hg' A]]].
+  pose proof (Inv_set_last w h t0 false HI0) as HI1.
+  eexists; split; [exact E|]. split; [now apply Inv_set_active|].
+  rewrite (abs_set_active w h (set_last t0 false) g' HI1 Hg'), A.
+  assert (Ea : abs (set_last t0 false) = set_pos (abs t0) (t_row t0) (t_col t0) false) by (apply abs_move; reflexivity).
+  rewrite Ea. unfold set_grid, set_pos, blank_line, blanks; cbn. rewrite (Inv_width w h t0 HI0). reflexivity.
+Qed.
 
 Lemma erase_cells_some bgc lo hi (line : trow) :
   0 <= lo -> lo <= hi -> hi <= zlen line ->
@@ -219,6 +255,237 @@ Proof.
     change (65535 =? 0) with false; change (65535 =? 1) with false; change (65535 =? 2) with false; cbv iota.
     assert (x =? 0 = false) as -> by lia. assert (x =? 1 = false) as -> by lia. assert (x =? 2 = false) as -> by lia.
     exists t; split; [reflexivity|]; split; [assumption|reflexivity].
+Qed.
+
+
+(* entering / leaving the alternate screen *)
+Lemma sim_alt_on : exists t', decset1 t 1049 = TOk t' /\ Inv w h t' /\ abs t' = alt_on (abs t).
+Proof.
+  destruct (sim_decsc w h t HI) as [I1 A1].
+  pose proof HI as [? Hw Hh Hirm Hlnm Hawm Halt [Hss Hdes] Hsp Hsa].
+  unfold decset1; cbv zeta.
+  change (1049 =? 6) with false; change (1049 =? 7) with false; change (1049 =? 25) with false;
+    change (1049 =? 1049) with true; cbv iota.
+  change (m_smcup (t_md (set_onalt (decsc t) true))) with (m_smcup (t_md (decsc t))).
+  assert (Hsm : t_md (decsc t) = t_md t) by (unfold decsc; destruct (m_smcup (t_md t)); reflexivity).
+  rewrite Hsm, Halt. unfold alt_on. rewrite <- A1.
+  destruct (t_onalt t) eqn:Eo.
+  - (* already there: only the cursor is saved *)
+    cbn [tbind].
+    assert (Hh1 : v_hidden (abs (decsc t)) = Some (abs_grid (t_prim t))).
+    { unfold abs; cbn. unfold decsc. rewrite Halt; cbn. rewrite Eo. reflexivity. }
+    rewrite Hh1.
+    eexists; split; [reflexivity|]. split.
+    + destruct I1 as [W1 Hw1 Hh1' Hirm1 Hlnm1 Hawm1 Ha1 Hcs1 Hsp1 Hsa1].
+      constructor; cbn [t_md t_cs t_svp t_sva t_onalt set_md set_onalt set_grids m_irm m_lnm m_awm m_smcup md_smcup];
+        try assumption; try reflexivity.
+      apply WFs_set_md, WFs_set_onalt, W1.
+    + unfold decsc. rewrite Halt. unfold abs, height, width, active; cbn. rewrite Eo. reflexivity.
+  - (* switch and clear *)
+    assert (W1 : WFs0 0 w h (set_onalt (decsc t) true)) by (apply WFs_set_onalt, I1).
+    destruct (ed2_core (set_onalt (decsc t) true) W1) as [g' [E [Hg' Ag]]].
+    rewrite E; cbn [tbind].
+    assert (Hh1 : v_hidden (abs (decsc t)) = None).
+    { unfold abs; cbn. unfold decsc. rewrite Halt; cbn. rewrite Eo. reflexivity. }
+    rewrite Hh1.
+    eexists; split; [reflexivity|]. split.
+    + assert (Hd : decsc t = set_svp t (save_of t)) by (unfold decsc; rewrite Halt; reflexivity).
+      rewrite Hd.
+      assert (Hf : forall b g, t_md (set_active (set_last (set_onalt (set_svp t (save_of t)) true) b) g) = t_md t
+                     /\ t_cs (set_active (set_last (set_onalt (set_svp t (save_of t)) true) b) g) = t_cs t
+                     /\ t_svp (set_active (set_last (set_onalt (set_svp t (save_of t)) true) b) g) = save_of t
+                     /\ t_sva (set_active (set_last (set_onalt (set_svp t (save_of t)) true) b) g) = t_sva t
+                     /\ t_onalt (set_active (set_last (set_onalt (set_svp t (save_of t)) true) b) g) = true)
+        by (intros; unfold set_active; cbn; repeat split).
+      destruct (Hf false g') as (F1 & F2 & F3 & F4 & F5).
+      constructor; cbn [t_md t_cs t_svp t_sva t_onalt set_md m_irm m_lnm m_awm m_smcup md_smcup];
+        rewrite ?F1, ?F2, ?F3, ?F4, ?F5; try assumption; try reflexivity.
+      * apply WFs_set_md, WFs_set_active; [apply WFs_set_last | exact Hg']. rewrite <- Hd. exact W1.
+      * split; assumption.
+      * split; [exact Hawm | split; [reflexivity | exact Hdes]].
+    + unfold blank_line, blanks.
+      assert (Hh2 : zlen g' = h) by apply Hg'.
+      assert (Hw2 : match g' with [] => 0 | r :: _ => zlen r end = w).
+      { destruct Hg' as [Hl HF]. destruct g' as [|r g']; [rewrite zlen_nil in Hl; lia|].
+        inversion HF as [|? ? Hr]; subst; apply Hr. }
+      assert (Hd : decsc t = set_svp t (save_of t)) by (unfold decsc; rewrite Halt; reflexivity).
+      rewrite Hd. rewrite Hd in Ag.
+      remember (set_md (set_active (set_last (set_onalt (set_svp t (save_of t)) true) false) g')
+                       (md_smcup (t_md (set_active (set_last (set_onalt (set_svp t (save_of t)) true) false) g')) true)) as T eqn:HT.
+      assert (P1 : active T = g') by (subst T; unfold set_active, active; cbn; reflexivity).
+      assert (P2 : t_onalt T = true) by (subst T; unfold set_active; cbn; reflexivity).
+      assert (P3 : t_prim T = t_prim t) by (subst T; unfold set_active; cbn; reflexivity).
+      assert (P4 : t_row T = t_row t /\ t_col T = t_col t /\ t_last T = false /\ t_pen T = t_pen t
+                   /\ t_top T = t_top t /\ t_bot T = t_bot t /\ t_svp T = save_of t /\ t_sva T = t_sva t)
+        by (subst T; unfold set_active; cbn; repeat split).
+      clear HT.
+      destruct P4 as (Q1 & Q2 & Q3 & Q4 & Q5 & Q6 & Q7 & Q8).
+      unfold abs at 1. unfold height, width. rewrite P1, P2, P3, Q1, Q2, Q3, Q4, Q5, Q6, Q7, Q8, Hh2, Hw2, Ag.
+      destruct (WFs_active _ _ _ _ HW) as [Hl0 HF0]. unfold active in Hl0, HF0. rewrite Eo in Hl0, HF0.
+      assert (Hw0 : match t_prim t with [] => 0 | r :: _ => zlen r end = w).
+      { destruct (t_prim t) as [|r g0]; [rewrite zlen_nil in Hl0; lia|]. inversion HF0 as [|? ? Hr]; subst; apply Hr. }
+      unfold abs, height, width, active; cbn. rewrite Eo, Hl0, Hw0, Hlast. reflexivity.
+Qed.
+
+
+Lemma sim_alt_off : exists t', decrst1 t 1049 = TOk t' /\ Inv w h t' /\ abs t' = alt_off (abs t).
+Proof.
+  pose proof HI as [? Hw Hh Hirm Hlnm Hawm Halt [Hss Hdes] Hsp Hsa].
+  unfold decrst1; cbv zeta.
+  change (1049 =? 6) with false; change (1049 =? 7) with false; change (1049 =? 25) with false;
+    change (1049 =? 1049) with true; cbv iota.
+  rewrite Halt. unfold alt_off.
+  destruct (t_onalt t) eqn:Eo.
+  - (* leave the alternate screen: it is cleared, the normal screen and its cursor come back *)
+    destruct (ed2_core t HW) as [g' [E [Hg' Ag]]].
+    rewrite E; cbn [tbind].
+    remember (set_md (set_onalt (set_active (set_last t false) g') false)
+                     (md_smcup (t_md (set_onalt (set_active (set_last t false) g') false)) false)) as T eqn:HT.
+    assert (IT : Inv w h T).
+    { subst T. constructor; try assumption.
+      - apply WFs_set_md, WFs_set_onalt, WFs_set_active; [now apply WFs_set_last | exact Hg'].
+      - cbn [t_md set_md set_onalt set_grids m_irm md_smcup]. rewrite t_md_set_active. exact Hirm.
+      - cbn [t_md set_md set_onalt set_grids m_lnm md_smcup]. rewrite t_md_set_active. exact Hlnm.
+      - cbn [t_md set_md set_onalt set_grids m_awm md_smcup]. rewrite t_md_set_active. exact Hawm.
+      - reflexivity.
+      - cbn [t_cs set_md set_onalt set_grids]. rewrite t_cs_set_active. split; assumption.
+      - cbn [t_svp set_md set_onalt set_grids]. rewrite t_svp_set_active. exact Hsp.
+      - cbn [t_sva set_md set_onalt set_grids]. rewrite t_sva_set_active. exact Hsa. }
+    assert (AT : abs T = match v_hidden (abs t) with
+                         | Some g => mkVt (v_rows (abs t)) (v_cols (abs t)) g None (v_row (abs t)) (v_col (abs t))
+                                          (v_pending (abs t)) (v_pen (abs t)) (v_top (abs t)) (v_bot (abs t))
+                                          (v_saved_n (abs t)) (v_saved_a (abs t))
+                         | None => abs t
+                         end).
+    { subst T. unfold abs, height, width, active, set_active; cbn. rewrite Eo; cbn.
+      destruct HW as [? ? [Hlp HFp] [Hla HFa] ? ? ? ? ? ? ? ? ? ? ?].
+      assert (Hwp : match t_prim t with [] => 0 | r :: _ => zlen r end = w).
+      { destruct (t_prim t) as [|r g0]; [rewrite zlen_nil in Hlp; lia|]. inversion HFp as [|? ? Hr]; subst; apply Hr. }
+      assert (Hwa : match t_alt t with [] => 0 | r :: _ => zlen r end = w).
+      { destruct (t_alt t) as [|r g0]; [rewrite zlen_nil in Hla; lia|]. inversion HFa as [|? ? Hr]; subst; apply Hr. }
+      rewrite Hlp, Hla, Hwp, Hwa, Hlast. reflexivity. }
+    destruct (sim_decrc w h T IT) as [I2 A2].
+    exists (decrc T); split; [reflexivity|]; split; [exact I2|]. rewrite A2, AT. reflexivity.
+  - (* not on the alternate screen: only the cursor is restored *)
+    cbn [tbind].
+    remember (set_md (set_onalt t false) (md_smcup (t_md (set_onalt t false)) false)) as T eqn:HT.
+    assert (ET : T = t).
+    { subst T. destruct t; cbn in *. subst. destruct t_md; cbn in *. subst. reflexivity. }
+    rewrite ET. destruct (sim_decrc w h t HI) as [I2 A2].
+    exists (decrc t); split; [reflexivity|]; split; [exact I2|]. rewrite A2.
+    assert (v_hidden (abs t) = None) as -> by (unfold abs; cbn; rewrite Eo; reflexivity). reflexivity.
+Qed.
+
+
+(* the count of ICH / DCH / ECH against the clamp of ps() *)
+Lemma count_cases x : pv_ok x ->
+  let ps := dflt1 (clamp_ps x) in
+  let k := Z.min (dflt x) (w - t_col t) in
+  1 <= ps /\ 1 <= k <= w - t_col t /\ (ps = k \/ (w - t_col t <= ps /\ k = w - t_col t)).
+Proof.
+  intros Hx; cbv zeta. destruct HI as [[] ? ?]. unfold dflt1, dflt. unfold pv_ok in Hx.
+  split_pv x Hx; repeat case_if; lia.
+Qed.
+
+Lemma sim_dch x : pv_ok x ->
+  exists t', dch t (clamp_ps x) = TOk t' /\ Inv w h t' /\ abs t' = delete_chars (abs t) (dflt x).
+Proof.
+  intros Hx. destruct (count_cases x Hx) as (Hps & Hk & Hpk).
+  set (ps := dflt1 (clamp_ps x)) in *. set (k := Z.min (dflt x) (w - t_col t)) in *.
+  destruct (cur_row w h t HI) as [line [Hg [Hl HFl]]].
+  unfold dch; cbv zeta. rewrite (set_last_id t Hlast). fold ps.
+  destruct HW as [? ? ? ? Hrow Hcol ? ? ? Hleft Hright ? ? ? ?].
+  destruct (t_right t <? t_col t) eqn:G0; [lia|].
+  match goal with |- context[on_row t (t_row t) ?f0] => set (f := f0) end.
+  assert (Hf : exists line', f line = Some line' /\ row_ok w line').
+  { unfold f. destruct ((t_col t <? 0) || (zlen line <=? t_right t)) eqn:G1; [lia|].
+    apply (line_loop_ok _ line w); [split; assumption|]. intros i c Hi Hc. repeat case_if; eauto.
+    - eexists; split; [reflexivity|]; unfold cell_ok; simpl; lia.
+    - apply (zget_cell_ok w); [split; assumption | lia]. }
+  destruct Hf as [line' [Hf Hl']].
+  rewrite (on_row_eval 0 w h t (t_row t) f line line' (Inv_WF w h t HI) Hrow Hg Hf).
+  eexists; split; [reflexivity|]. split.
+  { apply Inv_set_active; auto. destruct (WFs_active _ _ _ _ (Inv_WF w h t HI)) as [Hlen HF]. split.
+    - rewrite zlen_upd_nat; assumption.
+    - now apply upd_nat_Forall. }
+  rewrite (abs_row_op w h t line line' HI Hg Hl').
+  unfold delete_chars. rewrite (cur_line_abs w h t line HI Hg), (abs_cols w h t HI).
+  change (v_col (abs t)) with (t_col t). fold k. f_equal.
+  unfold f in Hf. destruct ((t_col t <? 0) || (zlen line <=? t_right t)) eqn:G1; [lia|].
+  apply list_ext_all; intros i. unfold abs_line at 1. rewrite zget_map, (mapi_opt_zget _ _ _ _ Hf i).
+  unfold blanks. change (v_pen (abs t)) with (t_pen t).
+  autorewrite with zg. rewrite !zlen_abs_line. unfold abs_line. rewrite ?zget_map.
+  destruct (Z_lt_dec i 0); [rewrite !zget_neg by lia; pw_finish|].
+  destruct (zget line i) as [c|] eqn:G.
+  - pose proof (zget_some_range _ _ _ G) as Hi. replace (0 + i) with i by lia.
+    destruct ((t_col t <=? i) && (i <=? t_right t)) eqn:C1.
+    + destruct (i + ps >? t_right t) eqn:C2.
+      * cbn [option_map]. rewrite abs_cell_erase. pw_finish.
+      * pw_finish.
+    + cbn [option_map]. pw_finish. all: try (rewrite G; reflexivity).
+  - apply zget_none_range in G. pw_finish. all: try (rewrite zget_beyond by lia; reflexivity).
+Qed.
+
+
+Lemma sim_ich x : pv_ok x ->
+  exists t', ich t (clamp_ps x) = TOk t' /\ Inv w h t' /\ abs t' = insert_chars (abs t) (dflt x).
+Proof.
+  intros Hx. destruct (count_cases x Hx) as (Hps & Hk & Hpk).
+  set (ps := dflt1 (clamp_ps x)) in *. set (k := Z.min (dflt x) (w - t_col t)) in *.
+  destruct (cur_row w h t HI) as [line [Hg [Hl HFl]]].
+  unfold ich; cbv zeta. fold ps.
+  pose proof HW as [? ? ? ? Hrow Hcol ? ? ? Hleft Hright ? ? ? ?].
+  match goal with |- context[on_row t (t_row t) ?f0] => set (f := f0) end.
+  assert (Hf : exists line1, f line = Some line1 /\ row_ok w line1).
+  { unfold f. case_if; [lia|].
+    apply (line_loop_ok _ line w); [split; assumption|]. intros i c Hi Hc. case_if; eauto.
+    apply (zget_cell_ok w); [split; assumption | lia]. }
+  destruct Hf as [line1 [Hf [Hl1 HF1]]].
+  rewrite (on_row_eval 0 w h t (t_row t) f line line1 HW Hrow Hg Hf). cbn [tbind].
+  set (t1 := set_active t (upd_nat (active t) (Z.to_nat (t_row t)) line1)).
+  assert (Hg1 : grid_ok w h (upd_nat (active t) (Z.to_nat (t_row t)) line1)).
+  { destruct (WFs_active _ _ _ _ HW) as [Hlen HF]. split; [rewrite zlen_upd_nat; assumption|].
+    apply upd_nat_Forall; [assumption | split; assumption]. }
+  assert (I1 : Inv w h t1) by (apply Inv_set_active; assumption).
+  assert (Hr1 : t_row t1 = t_row t) by apply t_row_set_active.
+  assert (Ha1 : active t1 = upd_nat (active t) (Z.to_nat (t_row t)) line1) by apply active_set_active.
+  assert (Hz1 : zget (active t1) (t_row t1) = Some line1).
+  { rewrite Ha1, Hr1, zget_upd_nat by (destruct (WFs_active _ _ _ _ HW); zl).
+    assert ((t_row t =? t_row t) = true) as -> by lia. reflexivity. }
+  rewrite (Inv_width w h t1 I1).
+  assert (Hhi : Z.min (t_col t + ps) w = t_col t + k) by lia. rewrite Hhi.
+  set (line2 := map_range (fun _ : tcell => blank_cell (pen_bg t1)) (t_col t) (t_col t + k) line1).
+  assert (Hf2 : upd_range (fun _ : tcell => blank_cell (pen_bg t1)) (t_col t) (t_col t + k) line1 = Some line2).
+  { unfold upd_range. destruct (t_col t <? t_col t + k) eqn:E; [|lia].
+    destruct ((t_col t <? 0) || (zlen line1 <? t_col t + k)) eqn:E2; [lia|]. reflexivity. }
+  rewrite (on_row_eval 0 w h t1 (t_row t1) _ line1 line2 (Inv_WF w h t1 I1) ltac:(lia) Hz1 Hf2).
+  assert (Hl2 : row_ok w line2).
+  { split; [unfold line2; rewrite map_range_length; lia|].
+    apply map_range_Forall; auto. intros c _; unfold cell_ok; simpl; lia. }
+  unfold t1 at 1. rewrite set_active_twice, Ha1, Hr1, upd_nat_twice.
+  eexists; split; [reflexivity|]. split.
+  { apply Inv_set_active; auto. destruct (WFs_active _ _ _ _ HW) as [Hlen HF]. split.
+    - rewrite zlen_upd_nat; assumption.
+    - now apply upd_nat_Forall. }
+  rewrite (abs_row_op w h t line line2 HI Hg Hl2).
+  unfold insert_chars. rewrite (cur_line_abs w h t line HI Hg), (abs_cols w h t HI).
+  change (v_col (abs t)) with (t_col t). fold k. f_equal.
+  unfold f in Hf. destruct ((t_col t <? t_right t) && (ps <=? t_right t) && (zlen line <=? t_right t)) eqn:G1; [lia|].
+  apply list_ext_all; intros i. unfold abs_line at 1, line2. rewrite zget_map, zget_map_range_const by lia.
+  rewrite (mapi_opt_zget _ _ _ _ Hf i).
+  unfold blanks. change (v_pen (abs t)) with (t_pen t).
+  assert (Hpb : pen_bg t1 = bg (spen (t_pen t))) by (unfold pen_bg, t1; rewrite t_pen_set_active; reflexivity).
+  rewrite Hpb.
+  autorewrite with zg. rewrite !zlen_abs_line. unfold abs_line. rewrite ?zget_map.
+  destruct (Z_lt_dec i 0); [rewrite !zget_neg by lia; pw_finish|].
+  destruct ((t_col t <=? i) && (i <? t_col t + k)) eqn:C0.
+  - cbn [option_map]. rewrite abs_cell_blank. pw_finish.
+  - destruct (zget line i) as [c|] eqn:G.
+    + pose proof (zget_some_range _ _ _ G) as Hi. replace (0 + i) with i by lia.
+      destruct ((t_col t <? i) && (i <=? t_right t) && (0 <=? i - ps)) eqn:C1.
+      * pw_finish.
+      * cbn [option_map]. pw_finish. all: try (rewrite G; reflexivity).
+    + apply zget_none_range in G. pw_finish. all: try (rewrite zget_beyond by lia; reflexivity).
 Qed.
 
 End Grid3.
